@@ -435,6 +435,14 @@ func prefixCounter(mem []world.IPState) func(string) int {
 func oracleC03(h *HistSys, hist []Op, w *world.World, obs Obs) *Finding {
 	// q1: quiescent state of the predecessor
 	pw, _, _ := BuildHist(h, hist[:len(hist)-1])
+	// what the predecessor really records (before its pending events are handled): an IP that only the predecessor's closure
+	// would have adopted (pod-IP sync after a store loss) was never recorded, so the successor cannot have released it
+	recorded := map[string]bool{}
+	for _, s := range pw.MemDump() {
+		if s.Alloc {
+			recorded[s.IP] = true
+		}
+	}
 	quiesce(pw)
 	q1 := pw.MemDump()
 	// q2: quiescent successor (w is not reused by the BFS after the oracle)
@@ -478,7 +486,7 @@ func oracleC03(h *HistSys, hist []Op, w *world.World, obs Obs) *Finding {
 		m2[s.IP] = s
 	}
 	for _, s := range q1 {
-		if !s.Alloc || s.Reserved || posted[s.IP] {
+		if !s.Alloc || s.Reserved || posted[s.IP] || !recorded[s.IP] {
 			continue
 		}
 		okBefore, _ := policyAllows(h, pw, s, cnt1, true)
